@@ -19,6 +19,7 @@ type C20Case struct {
 	NRules  int          `json:"nrules"`
 	RuleIdx int          `json:"rule_idx"`
 	Lay     []byte       `json:"lay,omitempty"`
+	Lead    string       `json:"lead,omitempty"` // text before the first rule (blank lines, comments)
 }
 
 var lineRe = regexp.MustCompile(`(?i)\bline\s*:?\s*(-?\d+)`)
@@ -68,6 +69,7 @@ func init() {
 			if pct(t, "plain_layout", 8) {
 				c.Lay = nil
 			}
+			c.Lead = []string{"", "", "\n", "\n\n\n", "  \n\t\n", "// header comment\n", "\r\n\r\n", " "}[uni(t, "lead", 0, 7)]
 			return c
 		},
 		Check: func(ci interface{}, x *Ctx) {
@@ -82,7 +84,10 @@ func init() {
 					rules = append(rules, fillerRule(k))
 				}
 			}
-			text, pr := dsl.PrintRules(rules, c.Lay)
+			text, pr := dsl.PrintRulesLead(rules, c.Lay, c.Lead)
+			if len(c.Lead) > 1 {
+				x.Class("text-starts-with-blank-or-comment-lines")
+			}
 			l := &obs.Log{}
 			rb, err := buildDSL(text, faultInject(l))
 			if err != nil {
